@@ -86,21 +86,44 @@ def make_chain(ctx, nx=1, ny=1, start1=0, periodic=False, with_second=True):
     integ = {}
 
     def field(name):
+        def sym(a, b=None):
+            k = (name, a.t.get_id(), b.t.get_id() if b is not None else None)
+            if k not in integ:
+                integ[k] = ctx.real("%s!%d" % (name, len(integ)))
+                keep.append((a, b))
+            return integ[k]
+
         def f(R, Z=None):
-            key = (name,)
+            if isinstance(R, Sym):  # scalar call
+                return sym(R, Z)
             out = numpy.empty(numpy.shape(R), dtype=object)
             for idx in numpy.ndindex(*out.shape):
-                a = R[idx]
-                b = Z[idx] if Z is not None else None
-                k = (name, a.t.get_id(), b.t.get_id() if b is not None else None)
-                if k not in integ:
-                    integ[k] = ctx.real("%s!%d" % (name, len(integ)))
-                out[idx] = integ[k]
+                out[idx] = sym(R[idx], Z[idx] if Z is not None else None)
             return out
 
+        f.sym = sym
         return f
 
-    eq = types.SimpleNamespace(psi=field("psi"), fpol=field("fpol"), Bp_R=field("BpR"), Bp_Z=field("BpZ"))
+    keep = []
+    # class invariant of a MeshRegion: contour a lies on the flux surface psi_vals[a]
+    pos2psi = {}
+    for r in (r1, r2):
+        r.psi_vals = numpy.array([ctx.real("%s_psi%d" % (r.name, a)) for a in range(len(r.contours))], dtype=object)
+        for a, c in enumerate(r.contours):
+            for k in range(c.npts):
+                pos2psi[(c.fine.positions[k, 0].t.get_id(), c.fine.positions[k, 1].t.get_id())] = r.psi_vals[a]
+    generic_psi = field("psi")
+
+    def psi_field(R, Z):
+        out = generic_psi(R, Z)
+        for idx in numpy.ndindex(*out.shape):
+            k = (R[idx].t.get_id(), Z[idx].t.get_id())
+            if k in pos2psi:
+                out[idx] = pos2psi[k]
+                integ[("psi", k[0], k[1])] = pos2psi[k]
+        return out
+
+    eq = types.SimpleNamespace(psi=psi_field, fpol=field("fpol"), Bp_R=field("BpR"), Bp_Z=field("BpZ"))
     mp = types.SimpleNamespace(regions=regs, equilibrium=eq)
     r1.meshParent = r2.meshParent = mp
     return r1, r2, integ
@@ -126,9 +149,10 @@ def run_zshift(periodic):
 
         def integrand(c, k):
             R, Z = c.fine.positions[k, 0], c.fine.positions[k, 1]
-            g = lambda nm, *a: integ[(nm,) + tuple(x.t.get_id() if x is not None else None for x in a)]
-            psi = g("psi", R, Z)
-            f = integ[("fpol", psi.t.get_id(), None)]
+            eq = r1.meshParent.equilibrium
+            g = lambda nm, *a: {"BpR": eq.Bp_R, "BpZ": eq.Bp_Z}[nm].sym(*a)
+            psi = eq.psi(numpy.array([R], dtype=object), numpy.array([Z], dtype=object))[0]
+            f = eq.fpol.sym(psi)
             bp = (g("BpR", R, Z) ** 2 + g("BpZ", R, Z) ** 2).sqrt()
             return f / R / (R * bp)
 
